@@ -109,31 +109,7 @@ fn enumerate_c02(
             counter: rec.counter,
         };
         tally.points += 1;
-        let mut result = eval_point(&p);
-        if dircheck {
-            // C11 judges two things only: nothing a recovery needs was deleted, nothing dead is kept
-            result = match result {
-                Err(e) if e.contains("directory differs") => Err(e),
-                Err(e) => {
-                    // differential oracle: put every removed WAL/table file back; if the recovery is
-                    // then correct, the database had deleted a file that crash recovery still needed
-                    let img = Arc::new(MemFs::from_journal_keep_removed(&p.journal, p.k));
-                    let accept: Vec<Model> = p.accept.iter().map(|m| m.iter().cloned().collect()).collect();
-                    let mut plan = p.plan.clone();
-                    plan.dircheck = false;
-                    match check_recovery(img, p.cfg, &accept, &p.universe, &plan, p.counter) {
-                        Ok(_) => Err(format!(
-                            "a file that crash recovery still needed had been deleted: the crash image fails ({e}) but recovers correctly when the WAL/table files removed before the crash are put back"
-                        )),
-                        Err(_) => {
-                            *tally.classes.entry("crash_failure_not_caused_by_a_deletion_(C02s_business)".into()).or_insert(0) += 1;
-                            Ok(PointInfo::default())
-                        }
-                    }
-                }
-                ok => ok,
-            };
-        }
+        let result = judge(&p, dircheck, tally);
         match result {
             Ok(info) => {
                 // non-trivial: strictly inside an API call or background work, with acknowledged data
@@ -165,6 +141,35 @@ fn enumerate_c02(
     None
 }
 
+/// Evaluate a crash point. With `dircheck` (C11) only two kinds of failure are reported: the
+/// directory is not exact after recovery, or a file that the recovery needed had been deleted
+/// (differential oracle: the image recovers correctly once removed WAL/table files are put back).
+fn judge(p: &PointReplay, dircheck: bool, tally: &mut Tally) -> Result<PointInfo, String> {
+    let result = eval_point(p);
+    if !dircheck {
+        return result;
+    }
+    match result {
+        Err(e) if e.contains("directory differs") => Err(e),
+        Err(e) => {
+            let img = Arc::new(MemFs::from_journal_keep_removed(&p.journal, p.k));
+            let accept: Vec<Model> = p.accept.iter().map(|m| m.iter().cloned().collect()).collect();
+            let mut plan = p.plan.clone();
+            plan.dircheck = false;
+            match check_recovery(img, p.cfg, &accept, &p.universe, &plan, p.counter) {
+                Ok(_) => Err(format!(
+                    "a file that crash recovery still needed had been deleted: the crash image fails ({e}) but recovers correctly when the WAL/table files removed before the crash are put back"
+                )),
+                Err(_) => {
+                    *tally.classes.entry("crash_failure_not_caused_by_a_deletion_(C02s_business)".into()).or_insert(0) += 1;
+                    Ok(PointInfo::default())
+                }
+            }
+        }
+        ok => ok,
+    }
+}
+
 /// Run the recovery of point `p` on a journalling image and crash it again at sampled prefixes.
 fn depth2(p: &PointReplay, _rec: &Recorded, tally: &mut Tally, ch: u64) -> Option<(PointReplay, String)> {
     let img = Arc::new(MemFs::from_journal(&p.journal, p.k, None, true));
@@ -190,7 +195,7 @@ fn depth2(p: &PointReplay, _rec: &Recorded, tally: &mut Tally, ch: u64) -> Optio
         q.plan.reuse1 = mix(ch, k2 as u64) & 1 == 1;
         tally.points += 1;
         *tally.classes.entry("depth2_crash_during_recovery".into()).or_insert(0) += 1;
-        match eval_point(&q) {
+        match judge(&q, q.plan.dircheck, tally) {
             Ok(_) => {
                 tally.nontrivial.push(mix(ch, (q.k as u64) << 20 | k2 as u64));
             }
